@@ -92,6 +92,14 @@ Definition run_print (tid : Z) (a : list Z) : list Z :=
   | 28 => obs enc_str (print_decimal (mkDec (negb (g 0%nat =? 0)) (g 1%nat) (g 2%nat)))
   | _ => [99]
   end.
+(* xsd_repr of a value whose zone offset is given in microseconds: a = fields ++ [flag; offset] *)
+Definition run_print_us (tid : Z) (a : list Z) : list Z :=
+  let n := (List.length a - 2)%nat in
+  let o := if nthz a n =? 0 then None else Some (nthz a (S n)) in
+  match tz_of_us o with
+  | Err e => enc_exc e
+  | Ok t => run_print tid (firstn n a ++ enc_tz t)
+  end.
 (* constructors called with Python ints / str: T(z), GDay(d), NormalizedString(s), ... *)
 Definition run_ctor (tid : Z) (a : list Z) : list Z :=
   let g := nthz a in
@@ -108,7 +116,8 @@ Definition run_ctor (tid : Z) (a : list Z) : list Z :=
   | _ => [99]
   end.
 (* mode 0: parse text; 1: print args; 2: ctor args; 3: parse bytes given in args; 4: recogniser on text;
-   5: recogniser on bytes; 6: the pre-repair float expression on the digits of the text (XsdOldUs.us_float) *)
+   5: recogniser on bytes; 6: the pre-repair float expression on the digits of the text (XsdOldUs.us_float);
+   7: print with the zone offset in microseconds *)
 Definition run_case (mode tid : Z) (txt : string) (a : list Z) : list Z :=
   match mode with
   | 0 => run_parse tid (L txt)
@@ -117,6 +126,7 @@ Definition run_case (mode tid : Z) (txt : string) (a : list Z) : list Z :=
   | 3 => run_parse tid (dec_str a)
   | 4 => run_valid tid (L txt)
   | 5 => run_valid tid (dec_str a)
+  | 7 => run_print_us tid a
   | _ => [us_float (L txt)]
   end.
 Definition check_case (c : Z * Z * string * list Z * Z) : bool :=
